@@ -38,14 +38,21 @@ SECOND = {
     'minimal': {'eid': 0x50000A02, 'plid': 0x50000A02, 'sections': []},
     'filtered': {'eid': 0x50000A02, 'plid': 0x50000A02, 'uh': {'sev': 0x40, 'flags': 0x6000}, 'sections': [{'t': 'PS'}]},
 }
-J_SECONDS = ['fine', 'undecodable', 'filtered', 'minimal']
-F_KINDS = ['fine', 'undecodable', 'filtered', 'badph', 'missing']
+J_SECONDS = ['fine', 'undecodable', 'filtered', 'minimal', 'cut-at-boundary', 'cut-in-header']
+F_KINDS = ['fine', 'undecodable', 'filtered', 'badph', 'missing', 'cut-at-boundary', 'cut-in-header']
+# inputs for which no output may exist whatever the tool's own fault-free run produces (decided by construction, not by the tool)
+NO_OUTPUT_KINDS = {'undecodable', 'badph', 'filtered', 'cut-at-boundary', 'cut-in-header'}
 CHUNKS = [64, 1024, 0]
 
 
 def second_bytes(kind):
     if kind == 'undecodable':
         return pelgen.encode_pel(pelgen.pel_from_spec(SECOND['fine']))[:100]
+    if kind in ('cut-at-boundary', 'cut-in-header'):
+        # truncated exactly in front of the last section / five bytes into its header (the section count still promises it)
+        spec = pelgen.pel_from_spec(SECOND['fine'])
+        start = pelgen.section_offsets(spec)[-1][0]
+        return pelgen.encode_pel(spec)[:start + (0 if kind == 'cut-at-boundary' else 5)]
     if kind == 'badph':
         return b'XX' + pelgen.encode_pel(pelgen.pel_from_spec(SECOND['fine']))[2:]
     return pelgen.encode_pel(pelgen.pel_from_spec(SECOND[kind]))
@@ -201,7 +208,9 @@ class Run:
                         probs.append(('input-modified', '%s was modified' % n))
                 continue
             info = self.removed_at.get(n)
-            if n not in expected:
+            if n == 'p2_input' and self.scen['second'] in NO_OUTPUT_KINDS:
+                probs.append(('removed-without-output', '%s (%s: not decodable / not selected) was removed' % (n, self.scen['second'])))
+            elif n not in expected:
                 probs.append(('removed-without-output', '%s was removed although no output is produced for it (%s)' %
                               (n, self.scen['second'])))
             elif info is None:
